@@ -10,6 +10,7 @@ package machine
 
 import (
 	"bytes"
+	"crypto/rand"
 	"errors"
 	"fmt"
 	"net/netip"
@@ -36,6 +37,7 @@ type ident struct {
 	certs map[cert.Version]cert.Certificate
 	hs    map[cert.Version][]byte
 	priv  []byte
+	pub   []byte // the static public key that belongs to priv
 }
 
 type world struct {
@@ -72,7 +74,8 @@ func getWorld(t *testing.T, curve cert.Curve) *world {
 		if err != nil {
 			panic(err)
 		}
-		id := &ident{name: name, certs: map[cert.Version]cert.Certificate{v: c}, hs: map[cert.Version][]byte{}, priv: priv}
+		id := &ident{name: name, certs: map[cert.Version]cert.Certificate{v: c}, hs: map[cert.Version][]byte{}, priv: priv,
+			pub: c.PublicKey()}
 		if both {
 			ov := cert.Version1
 			if v == cert.Version1 {
@@ -106,7 +109,7 @@ func getWorld(t *testing.T, curve cert.Curve) *world {
 	b := w.ids["B"]
 	w.ids["STOLEN"] = &ident{name: "STOLEN",
 		certs: map[cert.Version]cert.Certificate{cert.Version2: keySwap{b.certs[cert.Version2], own.certs[cert.Version2].PublicKey()}},
-		hs:    map[cert.Version][]byte{cert.Version2: b.hs[cert.Version2]}, priv: own.priv}
+		hs:    map[cert.Version][]byte{cert.Version2: b.hs[cert.Version2]}, priv: own.priv, pub: own.pub}
 	worlds[curve] = w
 	return w
 }
@@ -337,6 +340,8 @@ func (e *exec) observe(a []string) string {
 			len(pkt), st, rd, msgHex, k1, k2, ps, rc, vf, wr, time.Now().UnixNano())
 	case "mut":
 		return fmt.Sprintf("len=%d", len(e.mutate(a)))
+	case "forge":
+		return fmt.Sprintf("len=%d", len(e.forge(a)))
 	case "pair":
 		a1, a2 := e.ms[a[1]], e.ms[a[2]]
 		same := 0
@@ -422,6 +427,66 @@ func (e *exec) mutate(a []string) []byte {
 	return src
 }
 
+// forge: a peer that is NOT a handshake.Machine — a hand-driven noise.HandshakeState whose static key pair is
+// that of identity a[3] — sends an IX message whose payload carries the certificate of identity a[4] (version
+// a[5]) in the encoding a[6] (`hs` = MarshalForHandshakes, no public key; `full` = Marshal, public key
+// included), labelled with CertVersion a[7], indexes a[8]/a[9]. Role `init`: message 1 for an honest
+// responder. Role `resp`: reads the honest initiator's message 1 from register a[11] and answers message 2.
+//
+//	forge <dst> <init|resp> <static-ident> <cert-ident> <cert-ver> <hs|full> <CertVersion> <ii> <ri> <seed> <m1reg|->
+func (e *exec) forge(a []string) []byte {
+	sk, cid := e.w.ids[a[3]], e.w.ids[a[4]]
+	if sk == nil || cid == nil {
+		return nil
+	}
+	c := cid.certs[cert.Version(hlib.Atoi(a[5]))]
+	if c == nil {
+		return nil
+	}
+	var cb []byte
+	var err error
+	if a[6] == "full" {
+		if ks, ok := c.(keySwap); ok {
+			c = ks.Certificate
+		}
+		cb, err = c.Marshal()
+	} else {
+		cb, err = c.MarshalForHandshakes()
+	}
+	if err != nil {
+		return nil
+	}
+	payload := handshake.MarshalPayload(nil, handshake.Payload{Cert: cb, CertVersion: uint32(hlib.Atou(a[7])),
+		InitiatorIndex: uint32(hlib.Atou(a[8])), ResponderIndex: uint32(hlib.Atou(a[9])), Time: uint64(time.Now().UnixNano())})
+	seed := hlib.Atou(a[10])
+	cryptotest.SetGlobalRandom(e.t, seed)
+	hs, err := noise.NewHandshakeState(noise.Config{CipherSuite: e.suite(), Random: rand.Reader, Pattern: noise.HandshakeIX,
+		Initiator: a[2] == "init", StaticKeypair: noise.DHKey{Private: sk.priv, Public: sk.pub},
+		PresharedKey: []byte{}, PresharedKeyPlacement: 0})
+	if err != nil {
+		return nil
+	}
+	out := make([]byte, header.Len, 1024)
+	counter, remote := uint64(1), uint32(0)
+	if a[2] == "resp" {
+		m1 := e.regs[a[11]]
+		if len(m1) < header.Len {
+			return nil
+		}
+		if _, _, _, err := hs.ReadMessage(nil, m1[header.Len:]); err != nil {
+			return nil
+		}
+		counter, remote = 2, uint32(hlib.Atou(a[8]))
+	}
+	header.Encode(out, header.Version, header.Handshake, header.HandshakeIXPSK0, remote, counter)
+	cryptotest.SetGlobalRandom(e.t, seed+1)
+	out, _, _, err = hs.WriteMessage(out, payload)
+	if err != nil {
+		return nil
+	}
+	return out
+}
+
 func (e *exec) run(a []string) string {
 	switch a[0] {
 	case "reset":
@@ -476,12 +541,20 @@ func (e *exec) run(a []string) string {
 			if mm.haveK && res.DKey.UnsafeKey() != mm.cs1 {
 				dk = "cs2"
 			}
-			rs = fmt.Sprintf("%s,%s,%s,%d,%d,%d,%d,%s", ek, dk, e.label(res.RemoteCert), res.RemoteIndex, res.LocalIndex,
-				res.HandshakeTime, res.MessageIndex, hlib.B(res.Initiator))
+			pk := "-"
+			if res.RemoteCert != nil && res.RemoteCert.Certificate != nil {
+				pk = hlib.Hex(res.RemoteCert.Certificate.PublicKey())
+			}
+			rs = fmt.Sprintf("%s,%s,%s,%d,%d,%d,%d,%s,%s", ek, dk, e.label(res.RemoteCert), res.RemoteIndex, res.LocalIndex,
+				res.HandshakeTime, res.MessageIndex, hlib.B(res.Initiator), pk)
 		}
 		return "ok resp=" + hdrStr(out) + " res=" + rs + " " + tail
 	case "mut":
 		out := e.mutate(a)
+		e.regs[a[1]] = out
+		return fmt.Sprintf("ok len=%d", len(out))
+	case "forge":
+		out := e.forge(a)
 		e.regs[a[1]] = out
 		return fmt.Sprintf("ok len=%d", len(out))
 	case "pair":
@@ -558,10 +631,73 @@ func gen(r *hlib.Rand, n int, tier, profile string, emit func(string, ...any)) {
 			emit("%s", line)
 			return e.run(op)
 		}
+		forgeIdx := r.Intn(len(forgeCerts) * 32)
 		for i := 0; i < n; i++ {
+			if i%3 == 1 {
+				// certificates in every encoding the decoder can be fed, from a peer that is not a Machine:
+				// the whole cross product is walked, starting at a seed-dependent position
+				genForgeCase(r, e, do, forgeIdx)
+				forgeIdx++
+				continue
+			}
 			genCase(r, e, do, tier, profile)
 		}
 	})
+}
+
+var forgeCerts = []struct {
+	id  string
+	ver int
+}{{"A", 1}, {"A", 2}, {"B", 2}, {"V1", 1}}
+
+// genForgeCase: role x certificate (identity, real version) x encoding (handshake form without key / full form
+// with key) x CertVersion label (0, 1, 2, 3 — equal to or different from the real version) x Noise static key
+// (the certificate's own key / somebody else's).
+func genForgeCase(r *hlib.Rand, e *exec, do func(string, ...any) string, k int) {
+	role := []string{"init", "resp"}[k%2]
+	form := []string{"hs", "full"}[(k/2)%2]
+	cv := (k / 4) % 4
+	sameKey := (k/16)%2 == 0
+	c := forgeCerts[(k/32)%len(forgeCerts)]
+	sk := c.id
+	if !sameKey {
+		for {
+			sk = hlib.Pick(r, "OWN", "OWN", "B", "A", "UNT", "V1")
+			if sk != c.id {
+				break
+			}
+		}
+	}
+	do("reset %s %s", hlib.Pick(r, "x", "x", "p"), hlib.Pick(r, "aes", "chacha"))
+	honest := hlib.Pick(r, "A", "B", "V1")
+	hv := 2
+	if honest == "V1" || (honest == "A" && r.Bool()) {
+		hv = 1
+	}
+	li := 1 + r.Intn(1<<30)
+	ai := 1 + r.Intn(1<<30)
+	if role == "init" {
+		if do("new R %s %d 0 %d %d 0", honest, hv, li, r.Intn(1<<30)) != "ok" {
+			return
+		}
+		do("forge f1 init %s %s %d %s %d %d 0 %d -", sk, c.id, c.ver, form, cv, ai, r.Intn(1<<30))
+		do("pp R f1 m2")
+		if r.Chance(1, 4) {
+			do("pp R f1 m2b")
+		}
+		return
+	}
+	if do("new I %s %d 1 %d %d 0", honest, hv, li, r.Intn(1<<30)) != "ok" {
+		return
+	}
+	if !strings.HasPrefix(do("init I m1"), "ok") {
+		return
+	}
+	do("forge f2 resp %s %s %d %s %d %d %d %d m1", sk, c.id, c.ver, form, cv, li, ai, r.Intn(1<<30))
+	do("pp I f2 x1")
+	if r.Chance(1, 4) {
+		do("pp I f2 x2")
+	}
 }
 
 func genCase(r *hlib.Rand, e *exec, do func(string, ...any) string, tier, profile string) {
